@@ -178,3 +178,20 @@ package eval
 //@   dyncall Callback requires mincount:: len(arg2) >= fn.MinArgs
 //@   dyncall Callback requires maxcount:: fn.MaxArgs == -1 || len(arg2) <= fn.MaxArgs
 //@   property C07
+
+// Operators that grow strings / arrays: every allocation whose size is a program value must be covered by the
+// memory guard (guard.alloc obligations, generated for property C09), and size computations must not overflow.
+//@ func (*State).evalStringInfixExpression
+//@   overflow
+//@   requires s != nil && isStr(left) && right != nil
+//@   modifies *
+//@   maypanic would exceed memory
+//@   property C09 C07
+
+//@ func (*State).evalArrayInfixExpression
+//@   overflow
+//@   requires s != nil && object.wfObj(left) && object.isArr(left) && object.wfObj(right)
+//@   modifies *
+//@   maypanic would exceed memory
+//@   loop 1 invariant cap(result) == n && n == len(leftVal) * rightVal && len(result) == rangeint_iter * len(leftVal) && 0 <= rangeint_iter && rangeint_iter < rightVal && len(leftVal) > 0
+//@   property C09 C07
